@@ -233,7 +233,7 @@ def sanitized(db, ctx):
         for wf, kind, val, node in writers:
             v = unwrap_try(val)
             for role in roles:
-                ok, how = _sanitized_write(db, wf, v, val, adt, name, role, elem)
+                ok, how = _sanitized_write(db, db.view(wf), v, val, adt, name, role, elem)
                 ctx.ob("%s.%s|%s|writer=%s" % (short_path(adt), name, role, wf.short()), ok,
                        "field %s.%s (used as %s by %s) is written in %s from `%s`: %s" % (
                            short_path(adt), name, role, sorted({short_path(u[2]) + "→" + u[1] for u in uses}),
@@ -476,35 +476,54 @@ def consumer(db, ctx):
 def pos(db, ctx):
     fs = db.impls_of("UserPosSupport::handle_user_pos")
     ctx.floor(1)
+    from ..flow import outcomes
+    from ..inline import nf
     for f in fs:
-        h = f.hir
-        # first statement: if let Some(id) = get_part_of_speech_id(pos) { return Ok(id) }
-        first_ok = False
-        reg_guarded = None
-        forbid_err = False
-        for n, ps in walk(h):
-            if n.get("k") == "If" and mentions(n["cond"], is_call_to("get_part_of_speech_id")) and exit_kind(n["then"]) == "ok":
-                first_ok = True
-            if n.get("k") == "Match" and n.get("src") == "Normal":
-                for a in n["arms"]:
-                    pth = a["pat"].get("path") or (a["pat"].get("e") or {}).get("path") or ""
-                    has_reg = mentions(a["body"], is_call_to("register_pos"))
-                    if pth.endswith("UserPosMode::Allow"):
-                        reg_guarded = has_reg
-                    elif pth.endswith("UserPosMode::Forbid"):
-                        b = peel(a["body"])
-                        forbid_err = b.get("k") == "Call" and path_ends(b.get("callee"), ("Result::Err", "Err")) and not has_reg
-        regs_outside = 0
-        for n, ps in walk(h):
-            if is_call(n) and path_ends(callee(n), "register_pos"):
-                in_allow = any(p.get("k") == "Match" for p in ps)
-                if not in_allow:
-                    regs_outside += 1
-        ok = first_ok and reg_guarded is True and forbid_err and regs_outside == 0
-        ctx.ob("%s|shape" % f.short(), ok,
-               "%s: existing-id early return=%s, register_pos only in the Allow arm=%s, Forbid arm is Err=%s, "
-               "register_pos calls outside the mode match=%d" % (f.short(), first_ok, reg_guarded, forbid_err, regs_outside),
-               fn=f)
+        f = db.view(f)
+
+        def classify(e):
+            if e.get("k") == "Call" and path_ends(e.get("callee") or "", ("Result::Ok", "Ok")):
+                return "ok(existing id)"
+            if is_call(e) and path_ends(callee(e) or "", "register_pos"):
+                return "register_pos"
+            if e.get("k") == "Call" and path_ends(e.get("callee") or "", ("Result::Err", "Err")):
+                return "err"
+            return "other:" + render(e)[:40]
+        table = {}
+        for exists in (True, False):
+            for mode in ("Allow", "Forbid"):
+                def ev(atom, exists=exists, mode=mode):
+                    def pat_kind(p):
+                        return ((p or {}).get("path") or ((p or {}).get("e") or {}).get("path") or "").split("::")[-1]
+                    if isinstance(atom, tuple):
+                        _, scrut, pat = atom
+                        pk = pat_kind(pat)
+                        if mentions(scrut, is_call_to("get_part_of_speech_id")):
+                            return exists if pk == "Some" else (not exists) if pk == "None" else None
+                        if nf(scrut) == "mode" and pk in ("Allow", "Forbid"):
+                            return pk == mode
+                        return None
+                    a = peel(atom)
+                    if a.get("k") == "LetExpr" and mentions(a["init"], is_call_to("get_part_of_speech_id")):
+                        pk = pat_kind(a.get("pat"))
+                        return exists if pk == "Some" else (not exists) if pk == "None" else None
+                    if a.get("k") == "MethodCall" and a.get("method") in ("is_some", "is_none") and mentions(a["recv"], is_call_to("get_part_of_speech_id")):
+                        return exists if a["method"] == "is_some" else (not exists)
+                    c = cmp_atom(a)
+                    if c and c[0] in ("Eq", "Ne"):
+                        for x, y in ((c[1], c[2]), (c[2], c[1])):
+                            px = peel(x)
+                            if px.get("k") == "Path" and "UserPosMode::" in (px.get("path") or "") and nf(y) == "mode":
+                                eq = px["path"].split("::")[-1] == mode
+                                return eq if c[0] == "Eq" else (not eq)
+                    if a.get("k") == "Call" and path_ends(a.get("callee") or "", ("PartialEq::eq", "eq")) and len(a.get("args", [])) == 2:
+                        return None
+                    return None
+                table[(exists, mode)] = sorted(outcomes(f.hir, ev, classify) - {"try"})
+        want = {(True, "Allow"): ["ok(existing id)"], (True, "Forbid"): ["ok(existing id)"], (False, "Allow"): ["register_pos"], (False, "Forbid"): ["err"]}
+        ctx.ob("%s|shape" % f.short(), table == want,
+               "%s: result by (POS already present, mode) = %s (must be: present -> its id; absent+Allow -> register_pos; absent+Forbid -> Err)" % (
+                   f.short(), {"%s/%s" % k_: v for k_, v in table.items()}), fn=f)
     # the lookup itself must reject a POS of the wrong arity: zip/all over a shorter or longer list would match by prefix
     gp = db.one("get_part_of_speech_id", "Grammar")
     from ..db import walk_x
